@@ -6,6 +6,18 @@ BASE = "cd /repo && /venv/bin/python -m pytest -ra -q -p no:cacheprovider --time
 
 # id -> (engine, level, technique, level text, level note, design ref)
 CHECKS = {
+ "C01": ("LX", "exploration",
+         "bounded-exhaustive enumeration: complete Cartesian products of branch-boundary palettes (axes x angles x translations, all pose pairs) through the real kernels against an independent NumPy oracle",
+         "Every clause of the statement is evaluated on the complete product of 15 axes x 33 angles (x 6 translations) placed on both sides of the 1e-6 cut-off, the acos clamps and the half-turn sub-branches, plus all ordered pairs of a ~360-pose palette for the homomorphism laws.",
+         "Finite palettes; values between lattice points are not covered. True exp/log from oracles/se3.py (self-tested against scipy expm). KF1 (log near pi) matched only when the port still equals the vendored reference.", "DESIGN 4/C01"),
+ "C04": ("LX", "exploration",
+         "bounded-exhaustive enumeration: every palette pose in every constructor form, all ordered triples of a pose sub-palette, against independent matrices",
+         "128 poses x 14 constructor forms and all 13 824 (quick) / 216 000 (thorough) ordered pose triples are executed on the real tm class and frame-conversion helpers; results compared with independently built 4x4 matrices.",
+         "Finite palettes; rpy read as Rx*Ry*Rz as the property says; KF1 band (composed rotation within 3e-5 of pi) matched as known finding.", "DESIGN 4/C04"),
+ "C15": ("LX", "exploration",
+         "exhaustive enumeration of all lattice segment/box pairs through the real obstruction test against an integer-exact slab-clipping decision procedure",
+         "All ordered pairs of lattice end points x all integer boxes (quick 3.4 M pairs on {-2..2}^3 x {-1..1}^3; thorough 397 M on {-3..3}^3 x {-2..2}^3), an affine non-dyadic image of the lattice where the exact answer is robust, and all two-box sets over a sub-palette.",
+         "Exactness argument: every intermediate is a dyadic rational on the integer lattice. Oracle validated against fractions.Fraction in the self-tests. Float inputs off the (affine) lattice are not covered.", "DESIGN 4/C15"),
  "C03": ("HX", "model_checking",
          "explicit-state BFS over operation histories of the real tm object, depth-bounded, with from-scratch replay of every state's history",
          "Every history of length <= 2 (quick) / <= 3 (thorough) over a ~780-transition alphabet of constructors, setters, slice/element assignments, quaternion updates and operators is executed on the real class; the coherence invariant is evaluated in every reached state and on every returned object.",
